@@ -47,7 +47,7 @@ SECTION_BODY = {
 BANNER = ("# ============================================================================\n"
           "# GLOBAL SETTINGS\n"
           "# ============================================================================\n")
-APP_FILES = [None, None, "cfg/app.yaml", "cfg/app.json", ".thailint.yaml", "config.yaml", "config.json"]
+APP_FILES = [None, None, "cfg/app.yaml", "cfg/app.json", ".thailint.yaml", "config.yaml", "config.json", "cfg/app.yml", "cfg/APP.YAML", "cfg/App.Json"]
 
 VALID = {
     "log_level": ["DEBUG", "INFO", "WARNING", "ERROR", "CRITICAL"],
@@ -442,7 +442,7 @@ def _execute(zy, sc: dict, W: World, real: bool) -> dict:
                 model[rel] = {_norm(k): v for k, v in doc.items() if isinstance(k, str)}
     last_writer: dict[str, str] = {}
     file_digests = []
-    tracked = [".thailint.yaml", "config.yaml", "config.json", "cfg/app.yaml", "cfg/app.json", "alt/lint.yaml"]
+    tracked = [".thailint.yaml", "config.yaml", "config.json", "cfg/app.yaml", "cfg/app.json", "alt/lint.yaml", "cfg/app.yml", "cfg/APP.YAML", "cfg/App.Json"]
 
     def note_write(rel, who):
         prev = last_writer.get(rel, "user" if rel in sc["initial"] else "none")
@@ -725,14 +725,14 @@ def _do_set(R, W, ev, failures, stats, note_write, model, step):
         failures.append(_fail("accepted-but-different", "config-get", f"key={'hyphenated' if '-' in key else 'validated' if key in VALID else 'free'}",
                               key=key, value=value, want=str(tv), exit=g["exit"], got=g["stdout"][:200], stderr=g["stderr"][-300:], step=step))
         model[target].pop(_norm(key), None)
-    doc, err = (_parse_yaml_bytes(after) if not path.endswith(".json") else (None, None))
-    if path.endswith(".json"):
+    doc, err = (_parse_yaml_bytes(after) if not path.lower().endswith(".json") else (None, None))
+    if path.lower().endswith(".json"):
         try:
             json.loads(after.decode("utf-8"))
         except Exception as e:
             err = str(e)
     if err is not None:
-        failures.append(_fail("invalid-yaml", "config-set", f"file-kind={'json' if path.endswith('.json') else 'yaml'}", error=err, value=value, step=step))
+        failures.append(_fail("invalid-yaml", "config-set", f"file-kind={'json' if path.lower().endswith('.json') else 'yaml'}", error=err, value=value, step=step))
         return
     rt = R.roundtrip(rel)
     if "error" in rt:
